@@ -313,8 +313,9 @@ theorem C04_pull_wrong_kind_rejected (kind : PullKind) (ns : Str) (items : List 
 /-! ### the object-valued part, discharged from the C01 theorems
 
 `WireOk C S d o` (Proofs/Lemmas/OpsC01.lean) = `Sendable S o` (C01) ∧ embedded nesting ≤ d ∧ `WfTree (encObj o)`
-∧ `StableTree (encObj o)` (XmlSyntax: XML Names / XML Chars; no CR in texts, no TAB/LF/CR in attribute values, no
-empty string value).  `CodecOk C S` is C01's hypothesis record about the third-party conversions (float text,
+∧ `SoftStable (encObj o)` (XmlSyntax: XML Names / XML Chars; no CR in texts, no TAB/LF/CR in attribute values;
+empty string values ARE covered: the receiver sees the tree up to text chunking (`wireTree_norm`) and the decoders
+are blind to it (`decodeTop_norm`)).  `CodecOk C S` is C01's hypothesis record about the third-party conversions (float text,
 CIMDateTime, expat on embedded-object text). -/
 
 /-- **ObjRT from C01.**  The hypothesis record of the object-valued theorems above holds for every wire-stable
@@ -419,7 +420,7 @@ theorem C04_childrt_assoc_instances (C : DecCodec) (S : Spec) (hC : CodecOk C S)
     (l : List (Path × Inst))
     (h : ∀ x ∈ l, FullInstPath x.1 ∧ SendablePath S x.1 ∧ SendableInstBody S x.2 ∧ depthInst x.2 ≤ d ∧
       WfTree (E "VALUE.OBJECTWITHPATH" [] [encPath C.toCodec x.1, encInstElem C.toCodec x.2]) ∧
-      StableTree (E "VALUE.OBJECTWITHPATH" [] [encPath C.toCodec x.1, encInstElem C.toCodec x.2])) :
+      SoftStable (E "VALUE.OBJECTWITHPATH" [] [encPath C.toCodec x.1, encInstElem C.toCodec x.2])) :
     ChildRT C (embAt C d) host op
       (.iret (l.map (fun x => RItem.opInst (Inst.setPath x.1 x.2))))
       (.iret (l.map (fun x => CItem.tagged "VALUE.OBJECTWITHPATH".toList
@@ -469,6 +470,27 @@ example : WireOk toyCodec toySpec 0 exampleName := by
   simp [exampleName, Sendable, SendablePath, SendableKeys, SendableKey, AtomOk, NoDupKeyNames, Key.name]
 
 example : IsParamObj exampleName := trivial
+
+/-- an instance whose string property is EMPTY (its `<VALUE></VALUE>` arrives without a text node) is covered -/
+def exampleEmptyString : Obj :=
+  .inst (.mk "CIM_Foo".toList none
+    [.mk "Caption".toList "string".toList (.scalar (.str [])) false none none none none none []] [])
+
+theorem C04_example_empty_string_encoding : encObj toyCodec.toCodec exampleEmptyString =
+    .elem "INSTANCE".toList [("CLASSNAME".toList, "CIM_Foo".toList)]
+      [.elem "PROPERTY".toList [("NAME".toList, "Caption".toList), ("TYPE".toList, "string".toList)]
+        [.elem "VALUE".toList [] [.text []]]] := by
+  simp [exampleEmptyString, encObj, encInst, encQuals, encProps, encProp, encVal, valueElem, atomText, E, optAttr,
+    optBoolAttr]
+
+example : WireOk toyCodec toySpec 0 exampleEmptyString ∧ IsParamObj exampleEmptyString ∧
+    ¬ Pywbem.Model.XmlParse.StableTree (encObj toyCodec.toCodec exampleEmptyString) := by
+  refine ⟨⟨?_, by decide, ?_, ?_⟩, trivial, ?_⟩
+  · simp [exampleEmptyString, Sendable, SendableInst, SendableInstBody, SendablePropList, SendableProp, SendablePropVal,
+      SendableQuals, PlainAtom, AtomOk, typeName, NoDupNames, Prop_.name]
+  · rw [C04_example_empty_string_encoding]; decide
+  · rw [C04_example_empty_string_encoding]; decide
+  · rw [C04_example_empty_string_encoding]; decide
 
 example : ∃ t, wireTree (encObj toyCodec.toCodec exampleName) = some t ∧
     decode toyCodec 0 t = .ok (wdObj toyCodec.toCodec exampleName) :=
